@@ -20,16 +20,28 @@ RULE = ("op scripts generated adaptively against the implementation (allocate 1 
         "growth; after each: error + identical state line (bitmap, tree, cache, geometry, file size, counters), bytes read "
         "back, a one-block request without extension still fails; dry-run probes of _fsm_set_bit_status_lw on both sides of "
         "the boundary (model against implementation); "
+        "reallocate whose OLD range is the file header / the allocator's bitmap (whole, part, reached from a live neighbour) "
+        "or empty, growing / shrinking / to zero: refused, nothing changes; negative off_t arguments; "
+        "cache rounds (free runs in front of and behind the bitmap area, a page-aligned hole of the doubled bitmap's size, a "
+        "short free tail: the bitmap doubles into the hole, the tail is extended in place, the request is served from the "
+        "released old area; then the live piece ending at the tail start is released and the tail sizes are requested); "
+        "overflow scripts on files with a size limit (exfile maxoff 64..256 KB): address hints of 2^32 blocks and more / "
+        "negative (an uninitialised *oaddr) with and without NO_EXTEND - a request is served iff some free run holds it, the "
+        "bitmap does not grow while one does - the last hint a block key can hold, requests of 2^32 blocks and more (refused, "
+        "nothing changes), requests the limit cannot hold (growth fails half way: nothing stays allocated); "
         "a case is one script; distinct = distinct script text")
 ASSUME = ["mmap windows of the exfile are assumed to succeed in the model (their behaviour is C12's subject)",
           "non-strict mode: the client releases only (sub-ranges of) regions it owns (double free is what IWFSM_STRICT is for)",
           "the over-allocation decision (double arithmetic on crzsum/crznum/crzvar) is an oracle input of the model, "
           "observed on the implementation; the theorems hold for both values",
           "bitmaps with fewer than 2^32 bits",
-          "addresses and lengths of invalid requests are non-negative and below 2^62 (the 64-bit wrap of offset + length is not modelled)",
-          "a failed assert() of iwfsmfile.c that restates a check on caller-supplied arguments (range guard of "
-          "_fsm_set_bit_status_lw) is counted, not treated as a violation, unless VERIF_FSM_OPEN=assert (release builds refuse "
-          "the request; debug builds abort: notes/fsm.md round 5, fixes/fsm-setbit-assert.diff)"]
+          "off_t arguments: every (uint64_t) cast of the public functions is modelled, so negative and huge addresses, hints and "
+          "lengths are inside the model; block sizes >= 4 (offset + length in blocks then cannot wrap 64 bits)",
+          "on files with a size limit the scripts do not write, ask for solid space or grow regions by reallocate (these fail at the "
+          "limit by design and leave the new region allocated: notes/fsm.md, deepening round)",
+          "findings whose patch is not committed (realloc, hint, leak: fixes/fsm-realloc-guard.diff, fsm-alloc-overflow.diff, "
+          "fsm-resize-leak.diff) end the script where they are hit and are counted in the distribution; VERIF_FSM_OPEN=<name>|all "
+          "reports them as violations; once the source carries a patch (variant_of_source) its finding is a violation without any switch"]
 
 
 def check(run):
